@@ -294,12 +294,18 @@ def run_case(spec, sub=None):
         raise HarnessError("no outer-product-free tree for a connected network")
     want = best_all if spec["search_outer"] else best_no
 
-    cap = {"2": 2, "small": 10, "opt": want, "huge": 10**30, "zero": 0}[spec["cap"]]
-    if spec.get("cap_type") == "numpy32" and cap < 2**31:
+    cap_kind, cap_type = spec["cap"], spec.get("cap_type")
+    if n > 10:
+        # (the step-counted cap kinds are kept to n <= 10, where the counter's
+        # budget is 15 times the largest count seen)
+        cap_kind = "2" if cap_kind == "zero" else cap_kind
+        cap_type = "int" if cap_type == "numpy32" else cap_type
+    cap = {"2": 2, "small": 10, "opt": want, "huge": 10**30, "zero": 0}[cap_kind]
+    if cap_type == "numpy32" and cap < 2**31:
         import numpy as _np
 
         cap = _np.int32(cap)
-    elif spec.get("cap_type") == "float":
+    elif cap_type == "float":
         cap = float(cap)
     kw = dict(minimize=minimize, cost_cap=cap, search_outer=spec["search_outer"])
     if spec["via"] == "function":
@@ -313,7 +319,7 @@ def run_case(spec, sub=None):
         is_ssa = False
     viol = []
     fuel_used = 0
-    if spec["cap"] == "zero" or spec.get("cap_type") == "numpy32":
+    if cap_kind == "zero" or cap_type == "numpy32":
         # caps that once kept the doubling from getting anywhere: "did not
         # return" is judged deterministically, by counted steps (DESIGN 0.7)
         from ..fuel import Fuel, FuelExhausted
